@@ -49,7 +49,9 @@
 (*        grant after a slash re-bases the tracked delegation and may leave      *)
 (*        balance < Locked without any coin having left.)                       *)
 (*   delegated-unvested   a successful delegation through any path leaves the    *)
-(*        balance below unvested(now): some unvested coin was delegated.  This   *)
+(*        balance below unvested(now) - by more than it already was, so that a    *)
+(*        later, innocent delegation is not blamed for an earlier one: some        *)
+(*        unvested coin was delegated by THIS transaction.  This                  *)
 (*        is "amount <= balance - unvested" evaluated on the balance the coins    *)
 (*        were actually taken from: a delegation also pays in the rewards it      *)
 (*        auto-withdraws, and those may be delegated                              *)
@@ -118,7 +120,15 @@ UnvestedP(v, t) == UnvestedR(v, t, "cum")
 \* the invariant the statement is about (used on the model, and as a diagnostic on traces)
 BalanceCoversLock(v, t) == ~v.exists \/ CLE(LockedP(v, t), v.bank)
 
-DelegKinds == {"delegate", "exec_delegate", "pc_delegate", "pc_delegate_contract", "create_validator", "convert_into_stake"}
+DelegKinds == {"delegate", "exec_delegate", "pc_delegate", "pc_delegate_contract",
+               "create_validator", "exec_create_validator", "pc_create_validator", "pc_create_validator_contract",
+               "convert_into_stake"}
+\* re-bonding of coins that sit in an unbonding entry (MsgCancelUnbondingDelegation as a message, through
+\* authz, through the staking precompile).  The coins come from the not-bonded pool, not from the account
+\* (staking Delegate with subtractAccount = false), so these are ordinary transactions for P: they can
+\* only debit the account by their fee - if one of them ever took coins from the balance it would be
+\* judged by debit-below-locked.
+RebondKinds == {"cancel_unbond", "exec_cancel_unbond", "pc_cancel_unbond"}
 MergeKinds == {"merge", "convert_into", "convert_into_stake"}
 NonTx      == {"reset", "begin", "end", "tick", "slash"}
 
@@ -130,6 +140,9 @@ TrackedOver(e, pre, post, dl) ==
         base == IF e.ev \in MergeKinds
                 THEN VLMax(tq, VLOne(D, BondDenom, BigAdd(pre.bonded, pre.unbonding))) ELSE tq
     IN \E d \in D : BigLT(BigAdd(base[d], IF d = BondDenom THEN dl ELSE "0"), Tracked(post)[d])
+
+\* how many unvested coins are missing from the balance (zero on every state a correct chain reaches)
+Deficit(v, t) == IF v.exists THEN BigMax("0", BigSub(UnvestedP(v, t)[BondDenom], v.bank[BondDenom])) ELSE "0"
 
 \* the set of clauses a recorded step e : s -> t breaks
 Broken(e, s, t) ==
@@ -148,7 +161,7 @@ Broken(e, s, t) ==
                                             /\ BigLT(post.bank[d], LockedP(post, now)[d])
                     THEN {"debit-below-locked"} ELSE {})
                    \cup
-                   (IF isD /\ BigLT(post.bank[BondDenom], UnvestedP(post, now)[BondDenom])
+                   (IF isD /\ BigLT(Deficit(pre, now), Deficit(post, now))
                     THEN {"delegated-unvested"} ELSE {})
                    \cup
                    (IF TrackedOver(e, pre, post, dl) THEN {"tracked-overcount"} ELSE {})
@@ -365,6 +378,26 @@ MAcct(v, t, ev, args) ==
                 ELSE R(FALSE, p.v)
       [] ev = "exec_delegate" ->
            IF v.authz /\ DelegOK(v, t, x) THEN R(TRUE, Delegated(v, x)) ELSE R(FALSE, v)
+      [] ev = "exec_create_validator" ->
+           IF v.authz /\ ~v.isval /\ DelegOK(v, t, x) THEN R(TRUE, [Delegated(v, x) EXCEPT !.isval = TRUE]) ELSE R(FALSE, v)
+      [] ev \in {"pc_create_validator", "pc_create_validator_contract"} ->
+           \* the precompile's createValidator asks for no grant: it only insists that the delegator is the tx origin
+           LET r == MSelfEth(v, t, "0", f[BondDenom], TRUE) IN
+           IF ~r.ok THEN r
+           ELSE IF ~v.isval /\ DelegOK(r.v, t, x) THEN R(TRUE, [Delegated(r.v, x) EXCEPT !.isval = TRUE])
+           ELSE R(FALSE, r.v)
+      [] ev \in RebondKinds ->
+           LET p == IF ev = "cancel_unbond" THEN PayFee(v, t, f)
+                    ELSE IF ev = "pc_cancel_unbond" THEN MSelfEth(v, t, "0", f[BondDenom], TRUE)
+                    ELSE R(v.authz, v)
+               I == {i \in 1..Len(v.ubd) : v.ubd[i].at = args.at /\ BigLE(x, v.ubd[i].amt)}
+           IN IF ~p.ok THEN R(FALSE, v)
+              ELSE IF BigSign(x) > 0 /\ I # {}
+                   THEN LET i == CHOOSE j \in I : TRUE
+                            nu == [p.v.ubd EXCEPT ![i].amt = BigSub(@, x)]
+                        IN R(TRUE, [p.v EXCEPT !.bonded = BigAdd(@, x), !.unbonding = BigSub(@, x),
+                                              !.ubd = SelectSeq(nu, LAMBDA u : ~BigIsZero(u.amt))])
+                   ELSE R(FALSE, p.v)
       [] ev \in {"pc_delegate", "pc_delegate_contract"} ->
            LET r == MSelfEth(v, t, "0", f[BondDenom], (ev = "pc_delegate_contract" => v.pcgrant)) IN
            IF ~r.ok THEN r
@@ -460,9 +493,13 @@ LiquidateAct ==
     \E x \in {V.orig[BondDenom], "1"} \ {"0"} : Do("liquidate", Args(VLOne(Denoms, BondDenom, x), ZC, "0", "-"))
 DelegAct ==
     \E ev \in DelegKinds \ {"convert_into_stake"}, x \in DelegAmts, f \in Fees :
-        Do(ev, Args(ZC, IF ev = "exec_delegate" THEN ZC ELSE FeeC(f), x, "-"))
+        Do(ev, Args(ZC, IF ev \in {"exec_delegate", "exec_create_validator"} THEN ZC ELSE FeeC(f), x, "-"))
 UndelegAct ==
     \E x \in {V.bonded, "1"} \ {"0"} : Do("undelegate", Args(ZC, ZC, x, "-"))
+RebondAct ==
+    \E ev \in RebondKinds, i \in 1..Len(V.ubd) :
+      \E x \in {V.ubd[i].amt, BigAdd(V.ubd[i].amt, "1"), "1"} :
+        Do(ev, [acct |-> A, amt |-> ZC, fee |-> ZC, deleg |-> x, how |-> "-", at |-> V.ubd[i].at])
 ClawbackAct == Do("clawback", Args(ZC, ZC, "0", "-"))
 GrantChoices ==
     {[start |-> s0, lockup |-> <<Period(l1, VLOne(Denoms, BondDenom, "1"))>>, vesting |-> <<Period(l2, VLOne(Denoms, BondDenom, "1"))>>] :
@@ -492,7 +529,7 @@ Slash ==
 
 Next ==
     /\ Len(hist) < MaxLen
-    /\ \/ DebitAct \/ EthAct \/ FeeAct \/ LiquidateAct \/ DelegAct \/ UndelegAct
+    /\ \/ DebitAct \/ EthAct \/ FeeAct \/ LiquidateAct \/ DelegAct \/ UndelegAct \/ RebondAct
        \/ ClawbackAct \/ MergeAct \/ FundAct \/ Slash
        \/ \E dt \in Dts : Tick(dt)
 
@@ -556,6 +593,10 @@ SimDeleg(h) ==
 SimUndeleg(h) ==
     /\ BigSign(V.bonded) > 0
     /\ \E how \in {PickSeq(<<"all", "all", "half", "one">>, h)} : Do("undelegate", Args(ZC, ZC, Resolve(how, V.bonded, V.bonded), how))
+SimRebond(h) ==
+    /\ Len(V.ubd) > 0
+    /\ \E ev \in {Pick(RebondKinds, h)}, i \in {Pick(1..Len(V.ubd), h)}, how \in {PickSeq(<<"all", "half", "sp+1", "one">>, h)} :
+         Do(ev, [acct |-> A, amt |-> ZC, fee |-> ZC, deleg |-> Resolve(how, V.ubd[i].amt, V.ubd[i].amt), how |-> how, at |-> V.ubd[i].at])
 SimLiquidate(h) ==
     \E how \in {Pick({"all", "half", "sp+1"}, h)} :
         LET lk == VLPos(CSub(V.orig, UnlockedR(V, st.now, "read")))[BondDenom] IN
@@ -605,7 +646,8 @@ SimNext ==
     /\ Len(hist) < MaxLen
     /\ \/ SimDebit(hist) \/ SimDebit(hist) \/ SimDebit(hist)
        \/ SimDeleg(hist) \/ SimDeleg(hist)
-       \/ SimUndeleg(hist)
+       \/ SimUndeleg(hist) \/ SimUndeleg(hist)
+       \/ SimRebond(hist)
        \/ SimTick(hist) \/ SimTick(hist)
        \/ (Pick(1..3, hist) = 1 /\ ClawbackAct)
        \/ (Pick(1..2, hist) = 1 /\ SimMerge(hist))
